@@ -538,7 +538,7 @@ func init() {
 				return res
 			}
 			res.Absorb("l1", rep)
-			rep2, err := engine.Explore[*c18L2State](&c18L2Sys{st: st, votes: c18Votes(), twins: map[*world.L2]*world.L2{}}, opts(rc, pick(rc, 4, 5)))
+			rep2, err := engine.Explore[*c18L2State](&c18L2Sys{st: st, votes: c18Votes(), twins: map[*world.L2]*world.L2{}}, opts(rc, pick(rc, 3, 5)))
 			if err != nil {
 				res.HarnessErr = err
 				return res
